@@ -218,7 +218,7 @@ def kfLine (name : String) : String :=
     s!"kf delraw-embedded exc={showOutcome out} v={showScalar e1.val}"
   else if name == "tree-odd-key" then
     -- Tree_Alloc puts the value's header at 3*sizeof(var) + sizeof(Header) + size(ktype): misaligned for a 12-byte key type
-    let aligned := cfg.roundTree || (12 % 8 == 0)
+    let aligned := treeValHeaderAligned cfg 12
     s!"kf tree-odd-key exc={if aligned then "none" else "UB"}"
   else if name == "del-silent" then
     -- del($I(7)): not registered, GC_Rem_Ptr returns; nothing is raised
